@@ -121,6 +121,59 @@ mixed fpout(int kind) {
 }
 // called by the harness after remove_destructed_objects() and a call_out sweep
 mixed fpout2(int kind) { mixed r = fpb->fire(fpkind / 4); fpb->dest(); fpb = 0; return r; }
+// aliasing family: a binary operator / op-assign whose two operands are the same container
+// kind = 32 * value type + form;  value type 0 array (nested, with strings), 1 mapping, 2 string, 3 buffer
+mixed galias;
+mixed mkalias(int vt) {
+  switch (vt) {
+    case 0: return ({ "p", "q" + vt, ({ 1, 2 }), ([ "k" : "v" ]) });
+    case 1: return ([ "k" + vt : ({ 1 }), ({ "key" }) : "val", 3 : 4 ]);
+    case 2: return "alias" + vt + "/" + sizeof(galias);
+    default: return allocate_buffer(6);
+  }
+}
+mixed alias(int kind) {
+  int vt = kind / 32, form = kind % 32; mixed x = mkalias(vt), y, e; mixed *a; mapping m;
+  switch (form) {
+    case 0: e = catch(x += x); break;
+    case 1: e = catch(x = x + x); break;
+    case 2: y = x; e = catch(x += y); y = 0; break;
+    case 3: y = x; e = catch(x = x + y); y = 0; break;
+    case 4: a = ({ x }); x = 0; e = catch(a[0] += a[0]); a = 0; break;
+    case 5: a = ({ x }); x = 0; e = catch(a[0] = a[0] + a[0]); a = 0; break;
+    case 6: m = ([ "slot" : x ]); x = 0; e = catch(m["slot"] += m["slot"]); m = 0; break;
+    case 7: galias = x; x = 0; e = catch(galias += galias); galias = 0; break;
+    case 8: galias = x; x = 0; e = catch(galias = galias + galias); galias = 0; break;
+    case 9: e = catch(x -= x); break;
+    case 10: e = catch(x = x - x); break;
+    case 11: e = catch(x &= x); break;
+    case 12: e = catch(x = x & x); break;
+    case 13: e = catch(x |= x); break;
+    case 14: e = catch(x = x | x); break;
+    case 15: e = catch(x *= x); break;
+    case 16: e = catch(x = x * x); break;
+    case 17: e = catch(x += x); e = catch(x += x); e = catch(x += x); break;
+    case 18: a = ({ x, x }); x = 0; e = catch(a[0] += a[1]); a = 0; break;
+    case 19: y = x; e = catch(x += x); y = 0; break;
+    case 20: e = catch(x = ({ x }) + ({ x })); break;
+    case 21: e = catch(x[0..0] = x); break;
+    case 22: y = ({ x, x, x }); x = 0; e = catch(y[0] += y[1] + y[2]); y = 0; break;
+  }
+  return ({ kind, e });
+}
+// call-cache family: call_other to functions that exist but are not visible (static / private / protected / inherited static /
+// prototype only / undefined), on a cold cache and again on the filled cache, followed by a permitted call of the same name
+mixed refused(int kind) {
+  object t = load_object("/c06/ct"); mixed e, r1, r2, r3;
+  string *names = ({ "secret_fn", "hidden_fn", "prot_fn", "inherited_static_fn", "inherited_private_fn", "proto_only_fn", "no_such_fn", "public_fn" });
+  string fn = names[kind % 8];
+  e = catch(r1 = call_other(t, fn, ({ "arg" })));
+  e = catch(r2 = call_other(t, fn, ({ "arg" })));
+  if (kind >= 8) { e = catch(r3 = t->self_calls()); e = catch(r2 = call_other(t, fn, ({ "arg" }))); }
+  if (kind >= 16) { e = catch(r3 = call_other(({ t, t }), fn, 1)); e = catch(r3 = call_other(t, ({ fn, 1, 2 }))); }
+  t->dest();
+  return ({ kind, r1, r2 });
+}
 // zombie family: an object destructs itself and keeps calling efuns that capture arguments / register state
 int relay_z(mixed a, mixed b, mixed c, mixed d) { return sizeof(a); }
 mixed zombie(int kind) {
